@@ -178,7 +178,13 @@ def run(rep):
             n_holes += 1
             has_struct = bool(E.find_templates(term, lambda t: t is tmpl or ('pub struct #' in E.tmpl_text(t) and 'derive ( #(' in E.tmpl_text(t))))
             reads = []
-            E.walk(term, lambda x: reads.append(x[2] if x[0] == 'f' else '<whole>') if (x[0] == 'f' and x[1] == tP) or x == tP else None)
+
+            def visit(x):
+                if x[0] == 'okcond':
+                    return False   # "an earlier `?` succeeded" (e.g. validation passed) is not a dependence of the output on the option
+                if (x[0] == 'f' and x[1] == tP) or x == tP:
+                    reads.append(x[2] if x[0] == 'f' else '<whole>')
+            E.walk(term, visit)
             reads = sorted(set(r for r in reads if r != '<whole>' or not has_struct))
             if has_struct:
                 rep.ok('C09.non-interference', f'section:{name.lstrip("*")}', twhere, f'struct section reads options fields {reads}')
